@@ -385,3 +385,19 @@ package filecachepb
 //@   ensures nothing-of-the-stored-cache-is-lost-on-the-way-back: err == nil ==> c != nil && c.Version == old(fc.Version) && c.SyncTime == tsTime[old(fc.SyncTime)] &&
 //@             len(c.Profiles) == old(len(fc.Profiles)) && len(c.Devices) == old(len(fc.Devices))
 //@   ensures err != nil ==> c == nil
+
+// Load: a missing file is "no cache" (nil, nil); a file that cannot be read,
+// decoded or has another version is an error and never a cache; what is
+// returned is converted from the bytes of the file at the storage's own path.
+// (proto.Unmarshal: the decoder is trusted; what it yields is assumed well
+// formed in the sense of pbCacheOK - the generated getters never produce the
+// nil sub-messages the converters cannot take for a message this code wrote.)
+//@ ghost lastDecoded string
+//@ func (*Storage).Load
+//@   property C14
+//@   requires s != nil && s.logger != nil
+//@   modifies heap, lastIPs, lastDecoded
+//@   atcall ReadFile assert the-file-read-is-the-storages-own: arg0 == s.path
+//@   atcall toInternal assume the-decoder-yields-a-well-formed-message: pbCacheOK(fc)
+//@   ensures an-unreadable-or-foreign-file-is-never-a-cache: err != nil ==> c == nil
+//@   ensures only-the-current-format-is-read: c != nil ==> c.Version == internal.FileCacheVersion
